@@ -196,9 +196,35 @@ func runC03(c *Ctx) {
 		for _, in := range append(Calls(run, sIsFinished), wait) {
 			cc := CC(in)
 			recv := cc.Args[0]
-			if !DerivesOnly(recv, false, func(v ssa.Value) bool {
+			// the instance's schedule: the field it is kept in, or what the per-instance schedule factory returned
+			isInstSched := func(v ssa.Value) bool {
+				if IsFieldLoad(v, "instance", "schedule") {
+					return true
+				}
 				cl, _ := CallOfValue(v)
-				return cl != nil && MatchCC(&cl.Call, sNewWaiter) && DerivesOnly(cl.Call.Args[0], false, IsFieldLoadPred("instance", "schedule"))
+				return cl != nil && IsFieldCall(&cl.Call, "", "newSchedule")
+			}
+			isInstWaiter := func(v ssa.Value) bool {
+				cl, _ := CallOfValue(v)
+				return cl != nil && MatchCC(&cl.Call, sNewWaiter) && DerivesOnly(cl.Call.Args[0], false, isInstSched)
+			}
+			if !DerivesOnly(recv, false, func(v ssa.Value) bool {
+				if isInstWaiter(v) {
+					return true
+				}
+				// a Waiter made once for the instance and kept in a field of it
+				if fv, _ := FieldOf(v); fv != nil {
+					if _, tn := NamedOf(fv.Type()); tn == "Waiter" {
+						sts := c.P.FieldStores(fv)
+						for _, sv := range sts {
+							if !DerivesOnly(sv, false, isInstWaiter) {
+								return false
+							}
+						}
+						return len(sts) > 0
+					}
+				}
+				return false
 			}) {
 				okW = false
 			}
